@@ -188,6 +188,136 @@ impl Clone for P {
     }
 }
 
+// ---------------------------------------------------------------- Default probes (C08)
+
+pub const G_EXPR: u8 = 6;
+
+/// Probe for Default: one distinct type per field position (K = 1-based declaration index), so the
+/// fingerprint of `<PK<K> as Default>::default()` tells *whose* default was taken.
+#[derive(Clone, Copy)]
+pub struct PK<const K: u8> {
+    pub s: u8,
+    pub f: u8,
+    pub v: i8,
+    pub g: u8,
+}
+
+impl<const K: u8> PK<K> {
+    pub fn new(s: u8, f: u8, v: i8) -> Self {
+        PK { s, f, v, g: G_ORIG }
+    }
+
+    pub fn finger(&self) -> String {
+        format!("[\"{}\",{},{},{}]", side_name(self.s), self.f, self.v, self.g)
+    }
+}
+
+impl<const K: u8> Default for PK<K> {
+    fn default() -> Self {
+        log_push(format!("[\"default\",\"own\",{}]", K));
+        PK { s: 3, f: K, v: 7, g: G_DEFAULT }
+    }
+}
+
+fn from_lit<const K: u8>(v: i8) -> PK<K> {
+    log_push(format!("[\"from\",\"own\",{}]", v));
+    PK { s: 3, f: 0, v, g: G_FROM }
+}
+
+impl<const K: u8> From<i32> for PK<K> {
+    fn from(n: i32) -> Self {
+        from_lit(n as i8)
+    }
+}
+impl<const K: u8> From<&str> for PK<K> {
+    fn from(n: &str) -> Self {
+        from_lit(n.parse().unwrap_or(-1))
+    }
+}
+impl<const K: u8> From<bool> for PK<K> {
+    fn from(n: bool) -> Self {
+        from_lit(n as i8)
+    }
+}
+impl<const K: u8> From<char> for PK<K> {
+    fn from(n: char) -> Self {
+        from_lit(n.to_digit(10).map(|x| x as i8).unwrap_or(-1))
+    }
+}
+impl<const K: u8> From<f64> for PK<K> {
+    fn from(n: f64) -> Self {
+        from_lit(n as i8)
+    }
+}
+
+impl<const K: u8> std::fmt::Debug for PK<K> {
+    fn fmt(&self, f: &mut std::fmt::Formatter<'_>) -> std::fmt::Result {
+        write!(f, "pk{}", self.v)
+    }
+}
+
+/// formatting method usable for any field type (bystander Debug attributes)
+pub fn m_any<T>(_: &T, f: &mut std::fmt::Formatter<'_>) -> std::fmt::Result {
+    f.write_str("any")
+}
+
+/// a user expression (not a literal)
+pub fn pexpr<const K: u8>(n: i8) -> PK<K> {
+    PK { s: 3, f: 0, v: n, g: G_EXPR }
+}
+
+/// fingerprints of natural-typed fields
+pub trait Fp {
+    fn finger(&self) -> String;
+}
+impl Fp for i32 {
+    fn finger(&self) -> String {
+        format!("[\"nat\",0,{},0]", self)
+    }
+}
+impl Fp for &'static str {
+    fn finger(&self) -> String {
+        format!("[\"nat\",0,{},0]", self.parse::<i32>().unwrap_or(-1))
+    }
+}
+impl Fp for bool {
+    fn finger(&self) -> String {
+        format!("[\"nat\",0,{},0]", *self as i32)
+    }
+}
+impl Fp for char {
+    fn finger(&self) -> String {
+        format!("[\"nat\",0,{},0]", self.to_digit(10).map(|x| x as i32).unwrap_or(-1))
+    }
+}
+impl Fp for f64 {
+    fn finger(&self) -> String {
+        format!("[\"nat\",0,{},0]", *self as i32)
+    }
+}
+
+/// T::default() (and T::new() when requested), observed as fingerprints; `froms` counts the
+/// conversions made through From<literal>
+pub fn run_default<T: Case + Default, W: Write>(out: &mut Out<W>, new_fn: Option<&dyn Fn() -> T>) {
+    log_take();
+    let r = catch_unwind(AssertUnwindSafe(|| T::default()));
+    let log = log_take();
+    let froms = log.iter().filter(|s| s.starts_with("[\"from\"")).count();
+    let rn = new_fn.map(|f| catch_unwind(AssertUnwindSafe(f)));
+    log_take();
+    match (r, rn) {
+        (Ok(r), None) => out.rec(&format!(
+            "\"ev\":\"op\",\"t\":{},\"op\":\"default\",\"res\":{},\"froms\":{},\"newres\":[]",
+            T::ID, r.finger(), froms
+        )),
+        (Ok(r), Some(Ok(n))) => out.rec(&format!(
+            "\"ev\":\"op\",\"t\":{},\"op\":\"default\",\"res\":{},\"froms\":{},\"newres\":{}",
+            T::ID, r.finger(), froms, n.finger()
+        )),
+        _ => out.rec(&format!("\"ev\":\"op\",\"t\":{},\"op\":\"panic\",\"in\":\"default\"", T::ID)),
+    }
+}
+
 // ---------------------------------------------------------------- custom methods
 // Deliberately different from the own impls, and asymmetric.
 
